@@ -5,6 +5,7 @@ CONSTANTS
   FixLeave = FALSE
   FixWrap = FALSE
   FixDead = FALSE
+  FixAdopt = FALSE
   MaxTry = 2
   TrackCov = FALSE
   Goal = "none"
